@@ -212,8 +212,25 @@ func (d *driver) newCall(predictable bool) call {
 	si := r.Intn(4) // a0..a3 deliver; a5 is reserved for mempool trial executions
 	k.from, k.fromName = d.c.Accts[si], fmt.Sprintf("a%d", si)
 	k.gas = []uint64{60000, 100000, 200000, 300000, 400000}[r.Intn(5)]
-	kk := r.Intn(13)
+	kk := r.Intn(15)
 	switch {
+	case kk == 13: // no call data, recipient without stored code that executes all the same: a native precompile
+		a := common.BytesToAddress([]byte{byte(1 + r.Intn(9))})
+		k.to, k.data = &a, nil
+		k.value = int64(r.Intn(3))
+		k.gas = []uint64{60000, 100000}[r.Intn(2)]
+		k.desc = trace.M{"to": fmt.Sprintf("native-precompile-%d", a[19])}
+	case kk == 14: // no call data: plain transfer to an account, or to a custom precompiled contract (which reverts on it)
+		var a common.Address
+		if r.Intn(2) == 0 {
+			a = d.erc20
+			k.desc = trace.M{"to": "erc20.empty-calldata"}
+		} else {
+			a = d.c.Accts[r.Intn(4)].Addr
+			k.desc = trace.M{"to": "plain-transfer"}
+		}
+		k.to, k.data = &a, nil
+		k.value = int64(r.Intn(5))
 	case kk == 12: // gas-dependent branch: needs > 200000 gas at entry, uses ~21000
 		a := d.gbr
 		k.to, k.data = &a, []byte{0}
